@@ -258,7 +258,7 @@ def st_render(draw):
     mode = draw(G.MODE_WEIGHTED)
     cm = R.canon(mode)
     kw = draw(st_point(cm))
-    n = draw(st.integers(1, 6))
+    n = draw(st.sampled_from([0, 1, 1, 2, 2, 3, 4, 5, 6]))
     parts = []
     for _ in range(n):
         if draw(st.integers(0, 3)) == 0:
